@@ -165,12 +165,12 @@ def classify(crules, txn, a, b, ref, rerun=None):
     return 'classification-differs:' + side, False
 
 
-def judge(rec, crules, txns, tmp, rnd):
+def judge(rec, crules, txns, tmp, rnd, short_all=False):
     from tally import merchant_utils as mu, merchant_engine as me, cli
     cfg = os.path.join(tmp, 'cfg')
     shutil.rmtree(cfg, ignore_errors=True)
     os.makedirs(cfg)
-    csv_path = O.write(os.path.join(cfg, 'merchant_categories.csv'), R.render_csv(crules, rnd))
+    csv_path = O.write(os.path.join(cfg, 'merchant_categories.csv'), R.render_csv(crules, rnd, short_all=short_all))
     case0 = {'kind': 'csv', 'rules': [r.to_json() for r in crules]}
     rec.case()
     loaded = mu.load_merchant_rules(csv_path)
@@ -288,6 +288,14 @@ def empty_merchant_probe(rec, tmp):
     judge(rec, cr, txns, tmp, None)
 
 
+def short_row_probe(rec, tmp):
+    """Witness of the repaired defect 072d13c: lines with fewer cells than the header (no Tags, no Subcategory cell)."""
+    cr = [R.CsvRule('COSTCO', [], 'Costco', 'Food', '', []), R.CsvRule('NETFLIX', [('amount', '>', '5')], 'Netflix', 'Subs', 'Video', [])]
+    txns = [{'description': 'COSTCO 12', 'amount': 50.0, 'field': None, 'source': 'Amex', 'location': None, 'date': date(2025, 6, 1)},
+            {'description': 'NETFLIX.COM', 'amount': 15.0, 'field': None, 'source': 'Amex', 'location': None, 'date': date(2025, 6, 2)}]
+    judge(rec, cr, txns, tmp, None, short_all=True)
+
+
 def sharp_s_probe(rec, tmp):
     """Witness of the recorded finding 'description-with-multi-character-uppercase'."""
     cr = [R.CsvRule('STRASSE', [], 'Street Shop', 'Shopping', 'Misc', [])]
@@ -308,6 +316,7 @@ def run(rec, shard, nshards, t):
             relative_probe(rec)
             sharp_s_probe(rec, tmp)
             empty_merchant_probe(rec, tmp)
+            short_row_probe(rec, tmp)
     finally:
         shutil.rmtree(tmp, ignore_errors=True)
 
@@ -325,10 +334,10 @@ def replay(rec, case):
         finally:
             shutil.rmtree(tmp, ignore_errors=True)
         return
-    if case['kind'] == 'sharp-s':
+    if case['kind'] in ('sharp-s', 'short-row'):
         tmp = tempfile.mkdtemp(prefix='vt-c14-')
         try:
-            sharp_s_probe(rec, tmp)
+            (sharp_s_probe if case['kind'] == 'sharp-s' else short_row_probe)(rec, tmp)
         finally:
             shutil.rmtree(tmp, ignore_errors=True)
         return
